@@ -1143,8 +1143,9 @@ def std_summary(tb, path, upath, fr, args):
     if path in ("core::str::<impl str>::as_bytes",):
         return args[0]
     if path in ("<core::ptr::non_null::NonNull<T> as core::convert::From<&T>>::from", "<core::ptr::non_null::NonNull<T> as core::convert::From<&mut T>>::from",
-                "core::ptr::non_null::NonNull::<T>::from_ref", "core::ptr::non_null::NonNull::<T>::from_mut", "core::ptr::from_ref", "core::ptr::from_mut"):
-        return args[0]          # the pointer to the referent (same address)
+                "core::ptr::non_null::NonNull::<T>::from_ref", "core::ptr::non_null::NonNull::<T>::from_mut", "core::ptr::from_ref", "core::ptr::from_mut",
+                "core::ptr::non_null::NonNull::<T>::new_unchecked"):
+        return args[0]          # the pointer to the referent (same address); NonNull values are represented by their pointer
     if path in ("core::ptr::const_ptr::<impl *const T>::cast", "core::ptr::mut_ptr::<impl *mut T>::cast",
                 "core::ptr::const_ptr::<impl *const T>::cast_mut", "core::ptr::mut_ptr::<impl *mut T>::cast_const",
                 "core::ptr::non_null::NonNull::<T>::as_ptr", "core::ptr::non_null::NonNull::<T>::cast",
